@@ -88,7 +88,7 @@ def services():
         ir.endpoint("names", "GET", "/m/names/{type}/{fooBar}", [
             ir.arg("type", P("INTEGER"), "path"), ir.arg("fooBar", P("UUID"), "path"),
             ir.arg("async", P("INTEGER"), "query", "async"), ir.arg("camelCase", ir.optional(P("INTEGER")), "query", "camel-case"),
-            ir.arg("self", P("INTEGER"), "header", "X-Self"), ir.arg("snake_arg", ir.list_(P("INTEGER")), "query", "snake_arg"),
+            ir.arg("self", P("INTEGER"), "header", "X-Self"), ir.arg("snakeArg", ir.list_(P("INTEGER")), "query", "snake_arg"),
             ir.arg("match", ir.optional(P("BOOLEAN")), "header", "X-Match")], returns=P("STRING")),
         # every query argument optional / a collection: the first written pair may be any of them
         # a typed single-valued path parameter behind a regex segment: a raw request can hand it several segments
